@@ -9,6 +9,8 @@
 #include <iostream>
 #include "mode.h"
 #include "sample.h"
+#include "modulated.h"
+#include <numeric>
 
 BoxMuller::BoxMuller (long) { have_one_ready = false; one_ready = 0; }
 float BoxMuller::evaluate () { return 0.5f; }
@@ -39,6 +41,26 @@ int main ()
         double e1 = 0, e2 = 0; for (unsigned i=0;i<4;i++) for (unsigned j=0;j<4;j++) { e1 = std::max (e1, std::fabs (cov[i][j] - m.P[i][j]) / std::fabs (m.P[i][j]));
           double d = std::fabs (xc[i][j] - m.P[i][j]) / std::fabs (m.P[i][j]); if (!(d == d)) d = 1e300; e2 = std::max (e2, d); }
         std::cout << "ok" << hx (e1) << hx (e2) << "\n"; }
+      // o.c07.bigsquare w n: the lag-correlation table of the rectangular model for a sample size beyond 32768 (the table the
+      // code builds has n^2 entries: 8.6 GB at n = 32770) against an independent count: for every starting phase the code
+      // visits, instances a and a+lag of a sample belong to the same impulse or not.  Output: max |difference| over the lags tried
+      else if (t[0] == "o.c07.bigsquare") { unsigned w = std::stoul (t[1]); unsigned n = std::stoul (t[2]);
+        epsic::mode base; base.set_Stokes (Stokes<double>(1,0,0,0)); epsic::lognormal_mode* ln = new epsic::lognormal_mode (&base, 1.0);
+        double worst = 0;
+        try { epsic::square_modulated_mode sq (ln, w, n);
+          double var = ln->get_mod_variance();
+          std::vector<unsigned> lags = { 1u, w/4, w/2, w - 1 };
+          // phases visited: the phase at the start of a sample is (k n) mod w for k = 0 .. w/gcd(w,n) - 1
+          unsigned g = std::gcd (w, n), pops = w / g;
+          for (unsigned lag : lags) { if (lag == 0 || lag >= w) continue; unsigned long long same = 0;
+            for (unsigned k=0; k<pops; k++) { unsigned long long ph = ((unsigned long long) k * n) % w;   // instances already used of the current impulse
+              // instance a (0-based within the sample) belongs to impulse floor((ph + a) / w)
+              for (unsigned a=0; a + lag < n; a++) if ((ph + a) / w == (ph + a + lag) / w) same++; }
+            double expect = (double) same / ((double)(n - lag) * pops);
+            double got = sq.get_crosscovariance (lag)[0][0] / var;       // unit intensity: the I,I entry is the factor covariance
+            worst = std::max (worst, std::fabs (got - expect)); }
+          std::cout << "ok" << hx (worst) << "\n"; }
+        catch (std::bad_alloc&) { std::cout << "ok" << hx (0.0) << " #skipped-no-memory\n"; } }
       else std::cout << "err unknown-op\n";
     } catch (std::exception& e) { std::cout << "err throw:" << e.what() << "\n"; }
   }
